@@ -1,5 +1,5 @@
 """C12 — distributing a rate over sub-ticks neither creates nor loses iterations."""
-from ..core import ints
+from ..core import hx, ints
 
 ID = "C12"
 PROPS = ["F1Verif.Props.C12", "F1Verif.Props.FactsC12", "F1Verif.Props.Pipeline"]
@@ -24,6 +24,9 @@ def dist(kind, iv_ns, steps, rates, rands=(), gaps=()):
 def corpus():
     return [
         dist("regular", 900 * MS, 18, [7, 3]),
+        "pipeline %s 30 1 %s 40 staged" % (hx("1000/s"), hx("regular")),       # jitter is applied to the rate, the result is distributed — in every builder
+        "pipeline %s 20 1 %s 40 constant" % (hx("100/s"), hx("regular")),
+        "pipeline %s 50 1 %s 25 staged" % (hx("300/500ms"), hx("regular")),
         dist("regular", 1000 * MS, 30, [7, 3, 9], (), [(4, 2500 * MS), (17, 1001 * MS)]),     # a tick 2.5 s late in the middle of a cycle
         dist("random", 1000 * MS, 30, [7, 3, 9], [2, 1, 0, 3, 1, 0, 0, 2, 1, 1, 0, 0, 1, 2, 0, 0, 0, 0, 3, 1, 2, 1, 1, 0, 0, 1, 0, 0, 0, 0], [(4, 2500 * MS)]),
         dist("random", 500 * MS, 25, [0, 7, 0, 0, 5], [3, 1, 2, 0, 1, 2, 0, 1, 1, 0]),         # zero-rate cycles still last N sub-ticks
@@ -89,6 +92,8 @@ def generate(rng, tier):
     from . import _plan
     for _ in range({"quick": 40, "thorough": 600, "search": 200}[tier]):      # the composed pipeline, no jitter: exact totals
         out.append(_plan.pipeline_case(rng, jitter=(0, 1)))
+    for _ in range({"quick": 30, "thorough": 400, "search": 120}[tier]):      # … and with jitter: a regular distribution stays even within each cycle
+        out.append(_plan.pipeline_case(rng))
     rest = n - len(out)
     for _ in range(max(0, rest)):
         N = rng.randint(2, 12)
